@@ -542,7 +542,15 @@ type GlobalAssume struct {
 	Src     string
 }
 
+type GhostField struct {
+	TypeStr string // struct type as written
+	Name    string // "$name"
+	Type    string // field type as written
+	PkgPath string
+}
+
 type ContractSet struct {
+	Ghosts  []*GhostField
 	Funcs   map[string]*Contract // key: full ssa name e.g. "(github.com/invopop/gobl/num.Amount).Rescale"
 	Specs   map[string]*SpecFunc
 	Lemmas  []*Lemma
@@ -766,6 +774,14 @@ func (cs *ContractSet) LoadContractFile(path, pkgPath string) error {
 			lm.PkgPath = pkgPath
 			lm.File = path
 			cs.Lemmas = append(cs.Lemmas, lm)
+		case "ghost":
+			cur = nil
+			// ghost Type.$name fieldtype
+			if len(fields) != 3 || !strings.Contains(fields[1], ".$") {
+				return fail(fmt.Errorf("ghost needs: ghost Type.$name fieldtype"))
+			}
+			k := strings.LastIndex(fields[1], ".$")
+			cs.Ghosts = append(cs.Ghosts, &GhostField{TypeStr: fields[1][:k], Name: fields[1][k+1:], Type: fields[2], PkgPath: pkgPath})
 		case "global":
 			cur = nil
 			e, err := ParseExpr(rest)
